@@ -31,7 +31,11 @@ def sign_scalar(scalar: bytes, msg: bytes) -> bytes:
 SLACK = 60        # the default ts_threshold
 
 
-def one(F, T, k, seeds, sf, preimage, wrong, timeout, tw, tw_wrong, hash_size=20, flags='00', ahead=SLACK, perturb=None):
+def one(F, T, k, seeds, sf, preimage, wrong, timeout, tw, tw_wrong, hash_size=20, flags='00', ahead=None, perturb=None, create=None, slack=SLACK):
+    """create: the builders' clock when the lock is made; slack: the verifier's ts_threshold (60 = the default, through
+    run_auth_scripts; any other value through run_script(witness + lock, additional_flags=...))"""
+    CREATE = create if create is not None else globals()['CREATE']
+    ahead = slack if ahead is None else ahead
     recv, refund, other = seeds
     pk_r, pk_f = E.public_key(recv), E.public_key(refund)
     old_tt, old_ft = T.time, F.time
@@ -53,7 +57,7 @@ def one(F, T, k, seeds, sf, preimage, wrong, timeout, tw, tw_wrong, hash_size=20
             lock = T.make_ptlc_lock(pk_r, pk_f, tweak_point=E.base_mult_noclamp(tw), timeout=timeout, sigflags=flags)
         deadline = CREATE + timeout
         t = {'before': deadline - 1, 'at': deadline, 'after': deadline + 1, 'future': deadline + 1, 'slackm1': deadline}[k['tm']]
-        now = t - ahead if k['tm'] == 'future' else t - (SLACK - 1) if k['tm'] == 'slackm1' else t
+        now = t - ahead if k['tm'] == 'future' else t - (slack - 1) if k['tm'] == 'slackm1' else t
         pre = preimage if k['pre'] == 'right' else wrong
         s = k['signer']
         seed = {1: recv, 2: refund, 3: other}.get(s)
@@ -85,7 +89,16 @@ def one(F, T, k, seeds, sf, preimage, wrong, timeout, tw, tw_wrong, hash_size=20
         cache = {**sf, 'timestamp': t}
         if perturb:          # a sigfield changed after signing
             cache[perturb] = cache[perturb] + b'!'
-        ok = F.run_auth_scripts([wit, bytes(lock.bytes)], cache)
+        if slack == SLACK:
+            ok = F.run_auth_scripts([wit, bytes(lock.bytes)], cache)
+        else:
+            try:
+                _, st, _ = F.run_script(wit + bytes(lock.bytes), cache, additional_flags={'ts_threshold': slack})
+                ok = st.list() == [b'\xff']
+            except BaseException as e:
+                if isinstance(e, (KeyboardInterrupt, SystemExit)):
+                    raise
+                ok = False
         return 'true' if ok else 'false'
     finally:
         T.time, F.time = old_tt, old_ft
@@ -109,7 +122,7 @@ def record_random(args):
         sf = {f'sigfield{i}': r.randbytes(r.choice([1, 8, 40])) for i in range(1, 9) if r.random() < 0.5}
         sf.setdefault('sigfield2', b'x')
         pre = r.randbytes(r.randrange(1, 65))
-        pre = pre if any(pre) else b'\x01'
+        pre = pre if any(pre) and pre != b'\xff' else b'\x01'      # (x00 / xff are the FALSE / TRUE items of the PTLC witnesses)
         wrong = r.choice([r.randbytes(len(pre)) or b'\x01', pre + b'\x00', pre[:-1] or b'\x02'])
         if wrong == pre or not any(wrong):
             wrong = pre + b'\x01'
@@ -134,9 +147,24 @@ def record_random(args):
             perturb = f'sigfield{r.choice(cov)}'
             sf.setdefault(perturb, b'c')
             model['signer'] = 3 if k['signer'] in (1, 2, 3) else 12
+        # tweak scalars in every valid form (private-key clamp, reduced mod L, small), lock creation times on both sides of
+        # 2^31 / 2^32 (deadline constraints of 4, 5 bytes), verifier slack 60 (default) / 5 / 3600
+        def scalar():
+            c = r.random()
+            x = r.randbytes(32)
+            if c < 0.4:
+                return E.clamp(x)
+            if c < 0.7:
+                return (int.from_bytes(x, 'little') % E.L or 1).to_bytes(32, 'little')
+            return r.choice([1, 2, 5, 7, 8, 255, 2 ** 128 + 3]).to_bytes(32, 'little')
+        slack = r.choice([SLACK, SLACK, 5, 3600])
+        tw_a, tw_b = scalar(), scalar()
+        while E.sc(tw_b) % E.L == E.sc(tw_a) % E.L:
+            tw_b = scalar()
         try:
-            got = one(F, T, k, seeds, sf, pre, wrong, r.choice([1, 60, 86400, 10 ** 7]), E.clamp(r.randbytes(32)), E.clamp(r.randbytes(32)),
-                      hash_size=r.choice([16, 20, 32]), flags=flags, ahead=r.choice([SLACK, SLACK, SLACK + 1, 10 ** 6]), perturb=perturb)
+            got = one(F, T, k, seeds, sf, pre, wrong, r.choice([1, 60, 86400, 10 ** 7]), tw_a, tw_b,
+                      hash_size=r.choice([16, 20, 32]), flags=flags, ahead=r.choice([slack, slack, slack + 1, 10 ** 6]), perturb=perturb,
+                      create=r.choice([CREATE, CREATE, 2 ** 31 - 30, 2 ** 31 + 5, 2 ** 32 - 10, 2 ** 32 + 10]), slack=slack)
         except BaseException as e:
             if isinstance(e, (KeyboardInterrupt, SystemExit)):
                 raise
@@ -154,7 +182,7 @@ def main(tier: str, seed: int) -> int:
                 'cases; laws AcceptIffClaimOrRefund, WrongPreimageNeverClaims, NoRefundBeforeTimeout, OtherKeyRejected; each case is '
                 'built with the real builders under pinned clocks (tools.time at creation, functions.time at the check) and run '
                 'through run_auth_scripts. traces: random seeds, preimages of 1..64 bytes, digest sizes 16/20/32, timeouts from 1 s to '
-                '10^7 s, tweak scalars, sigfield sets, random sigflags bytes with excluded / covered fields changed after signing, judged by TLC.')
+                '10^7 s, tweak scalars in every valid form (private-key clamp, reduced mod L, small), lock creation times on both sides of 2^31 / 2^32, verifier slack 60 / 5 / 3600 (through additional_flags), sigfield sets, random sigflags bytes with excluded / covered fields changed after signing, judged by TLC.')
     rep.assumptions = ['ideal hashes / signatures', 'a wrong preimage is a non-zero byte string different from the preimage']
     quick = tier == 'quick'
     scncheck.mc(rep, 'Htlc', 'mc', INV, run_mc, workers=4)
